@@ -7,10 +7,12 @@ from gen.pools import fbits
 from gen.randgen import *
 
 PROPERTY = "C12"
-PROPS_VO = "Props/C12"
+PROPS_VO = ["Props/C12", "Props/C12f"]
+AXIOMS_OK_BY_FILE = {"Props/C12f": vcheck.FLOCQ_AXIOMS}
 AXIOMS_OK = []
 ASSUMPTIONS = [
     "the random number generator is an oracle: every gen_range / Uniform::sample / rng.gen / rand::random consumes the next element of a tape and answers inside the requested range (rand's documented contract, trusted); theorems hold for EVERY tape, i.e. every outcome of the generator",
+    "new names: the theorems of Props/C12.v treat a drawn name as an arbitrary non-empty string; Props/C12f.v proves for the Flocq instance and the real registry that a name of the shape names::Generator yields (lower-case words joined by '-') is read back by the parser as that name, and hence that generated programs whose new names have that shape print and parse back (C12_shaped_names_tree_roundtrip); that drawn names HAVE the shape is observed on 400 000 draws per run (new-name-alphabet), with a search for a failing draw when they do not",
     "names::Generator is an oracle returning an arbitrary non-empty string; HashMap key order (existing_random_name) is an oracle index into the bound names",
     "the implementation's generator cannot be seeded (thread_rng, no source hook added): the tie to the code is by MEMBERSHIP - every value the real code produced in the runs satisfies the proved characterisation valid_gen (sound and complete for the model); the RNG-independent part of every result (None/Some, surrounding state) is diffed exactly",
     "'every generated program is executable and printable' is checked on the real interpreter (print, parse back, <= 20 steps, no panic) for every generated program that contains no instruction of gen/randgen.py EXEC_DENY (process spawning, stdout, operand-sized allocations); the general no-panic claim for arbitrary programs is C01's",
